@@ -92,7 +92,14 @@ func c02(c *Ctx) {
 	c.NotDecided = []string{"that the state machine as a whole accepts exactly the grammar on all byte strings (offset arithmetic, field extraction positions)", "strconv.ParseFloat's accepted syntax"}
 	c.Assumptions = []string{"the documented tables frozen in checker/c02.go are the README grammar", "anchors by name: the state functions of internal/lexer (a pure rename is reported as UNRESOLVED-ANCHOR)"}
 
-	F := func(name string) *ssa.Function { return w.Func(lexPkg, name) }
+	F := func(name string) *ssa.Function {
+		if name == "lexKey" {
+			// lexKey may have been merged into the state that hands over to it (its only user)
+			fn, _ := w.FuncOrHost(lexPkg, name)
+			return fn
+		}
+		return w.Func(lexPkg, name)
+	}
 
 	c.Rule("C02.R1", "type table: c->COUNTER g->GAUGE ms->TIMER h->TIMER s->SET, anything else is an error", 6, func(r *Rule) {
 		fn := F("lexType")
@@ -379,10 +386,16 @@ func c02(c *Ctx) {
 			r.Unresolved("lexer.lexKeySep")
 			return
 		}
+		endOfName := effClass{"end-of-name", []string{"return lexKey"}, []string{"store"}}
+		if lk := F("lexKey"); lk != nil && lk.Name() != "lexKey" {
+			// the name state was merged into the separator state: ':' now does what lexKey did (checked by the
+			// lexKey rules on the merged function) and hands over to lexKey's successor
+			endOfName = effClass{"end-of-name", []string{"branch"}, nil}
+		}
 		classes := []effClass{
 			{"replace-with-'-'", []string{"store l.input[(l.pos-1)] <- 45", "loop"}, []string{"l.err", "append"}},
 			{"replace-with-'_'", []string{"store l.input[(l.pos-1)] <- 95", "loop"}, []string{"l.err", "append"}},
-			{"end-of-name", []string{"return lexKey"}, []string{"store"}},
+			endOfName,
 			{"error", []string{"store l.err <- global:errMissingKeySep", "return nil"}, nil},
 			{"keep", []string{"loop"}, []string{"store", "call"}},
 			{"delete", []string{"call builtin append||call builtin copy", "store l.input <-", "store l.len <- (l.len-1)", "store l.pos <- (l.pos-1)", "loop"}, []string{"l.err"}},
@@ -804,7 +817,7 @@ func c02(c *Ctx) {
 		// documented predecessor, entered unconditionally from it) can be merged this way.
 		contractible := map[string]bool{"lexValue": true, "lexKey": true}
 		for nm := range contractible {
-			if F(nm) != nil {
+			if fn := F(nm); fn != nil && fn.Name() == nm {
 				continue
 			}
 			succ := want[nm]
